@@ -39,7 +39,7 @@ pub open spec fn fed2(a: Seq<u8>, b: Seq<u8>) -> Seq<u8> { (Seq::<u8>::empty() +
 pub open spec fn fed1(a: Seq<u8>) -> Seq<u8> { Seq::<u8>::empty() + a }
 
 //@extract lightning/src/ln/inbound_payment.rs :: fn derive_ldk_payment_preimage
-//@rw R8
+//@rw R8 ?
     &(metadata.len() as u64).to_le_bytes()
 //@with
     le64(metadata.len() as u64).as_slice()
